@@ -138,7 +138,12 @@ def relations(ctx, si, payload):
             n = payload["n"]
             cfg, beta, alt, l, theta, L, se = upstream(rng, n, det)
             cfg.detector.radio.low_frequency, cfg.detector.radio.high_frequency = band
-            cfg.simulation.ionosphere.total_electron_content = tec
+            if tec is None:
+                cfg.simulation.ionosphere = None  # the radio stage explicitly allows a missing ionosphere block
+            else:
+                cfg.simulation.ionosphere.total_electron_content = tec
+                if tec == 150.0:
+                    cfg.simulation.ionosphere.total_electron_error = 25.0  # above the tabulated error range
             args = (beta, alt, l, theta, L, se)
             wit = {"det_alt": det, "TEC": tec, "band": list(band), "events": int(beta.size)}
             a0 = [x.copy() for x in args]
@@ -341,9 +346,9 @@ def run(ctx):
     nb = 12
     P = [{"kind": "bands", "bands": allb[i::nb]} for i in range(nb)]
     dets = [33.0, 89.0, 91.0, 525.0, 36000.0]
-    variants = [(10.0, (30.0, 300.0)), (7.0, (30.0, 300.0)), (50.0, (300.0, 1000.0)), (10.0, (50.0, 200.0))]
+    variants = [(10.0, (30.0, 300.0)), (7.0, (30.0, 300.0)), (50.0, (300.0, 1000.0)), (10.0, (50.0, 200.0)), (-1.0, (30.0, 300.0)), (None, (30.0, 80.0)), (150.0, (200.0, 1200.0))]
     for d in dets:
-        P.append({"kind": "rel", "dets": [d], "variants": variants if T else variants[:: 2 if d != 525.0 else 1], "n": 300 if not T else 2500})
+        P.append({"kind": "rel", "dets": [d], "variants": variants if T else (variants[::2] if d != 525.0 else variants), "n": 300 if not T else 2500})
     P.append({"kind": "big", "n": 20000 if not T else 70001})
     P.append({"kind": "history"})
     core.run_shards(ctx, "nssmon.checks.c20", "entry", P, workers=16, timeout=ctx.pick(900, 5000))
